@@ -108,6 +108,25 @@ class Ctx:
                                          construct, detail, witness))
         return ok
 
+    def borrow(self, label, fn, *args, only=None, **kw):
+        """Run rules of another property's module under this property's
+        name: `label(OTHER.RULE)`.  With `only`, the other rules the function
+        records are dropped again (they are decided where they belong)."""
+        nf, no = len(self.findings), len(self.obligations)
+        res = fn(self, *args, **kw)
+
+        def keep(rule):
+            return only is None or any(rule == r or rule.startswith(r)
+                                       for r in only)
+        self.findings[nf:] = [f for f in self.findings[nf:] if keep(f.rule)]
+        self.obligations[no:] = [o for o in self.obligations[no:]
+                                 if keep(o['rule'])]
+        for f in self.findings[nf:]:
+            f.rule = '%s(%s)' % (label, f.rule)
+        for o in self.obligations[no:]:
+            o['rule'] = '%s(%s)' % (label, o['rule'])
+        return res
+
     def count(self, n, distinct_keys=()):
         """Count bulk evaluations (table rows, sentences)."""
         self.evaluations += n
